@@ -54,7 +54,7 @@ func (lt *lifetime) timeAt(k int) int64 {
 }
 
 func applyKnobs(k map[string]int) {
-	for _, n := range []string{"WriteChannelCommandDepth", "defaultReplicationStreamChannelSize", "defaultSenderChannelSize"} {
+	for _, n := range []string{"WriteChannelCommandDepth", "defaultReplicationStreamChannelSize", "defaultSenderChannelSize", "recordsPerRead"} {
 		simrt.SetKnob(n, k[n])
 	}
 }
